@@ -714,8 +714,10 @@ func Input(l *InputSharedVars, g *GlobalVarsMain, hPath *HFilePath, driConfig *C
 					}
 					for i := 1; i <= NDu; i++ {
 						index := i - 1
-						if g.ZTDG[index+1] == g.ZTDG[index] {
-							g.ZTDG[index+1] = g.ZTDG[index+1] + 1
+						// an event that does not come after the (possibly shifted) previous one is moved to the day after it;
+						// with the residues of the first crop on the start day a pair on that day is a run of three
+						if index+1 < NDu && g.ZTDG[index+1] <= g.ZTDG[index] {
+							g.ZTDG[index+1] = g.ZTDG[index] + 1
 						}
 					}
 					for i := 1; i < NDu; i++ {
